@@ -94,7 +94,10 @@ def random_cases(ctx, count):
             "x": x, "y": y, "p": p, "t": t, "ln": ln, "ld": ld, "rn": rn, "rd": rd, "icpt": icpt,
             "ft": "f64", "form": r.choice(["owned", "view", "fview"]),
             "maxit": 40000 if kind == "mtl" else 100000, "te": 12,
-            "lte": 0 if (kind == "ols" or ln == 0 or rn == 0) else r.randint(1, 3)}})
+            "lte": 0, "ue": 0}})
+        if not (kind == "ols" or ln == 0 or rn == 0):
+            out[-1]["inp"]["lte"] = r.randint(1, 4)
+            out[-1]["inp"]["ue"] = r.choice([0, -10, -14, 10])
     return out
 
 
@@ -139,6 +142,7 @@ def run(ctx):
     ctx.rule = ("cases = lattice regression problems (sorted first column over {-1..2} x (scale,offset) in {1,10}x{0,10}; "
                 "second column: all binary vectors incl. constant columns, x10, exactly collinear, squared) x all targets over "
                 "{0,1,3} x {OLS, elastic net, multi-task} x penalty {0,1/10,1/2,1,2} x l1-ratio {0,1/2,1} x intercept on/off, "
+                "target unit 2^ue, ue in {0,-10,-14,10} (with a loose fit at tolerance 10^-1..10^-4 and its repetition in unit 1), "
                 "enumerated by TLC (Gen_LinReg) and thinned by a fixed hash [+ seeded random n<=20, p<=3, t<=3 in the thorough "
                 "tier]; non-trivial = targets not all zero and (some column mean non-zero or p > 1); distinct by "
                 "(kind, X, Y, penalty, ratio, intercept, float type)")
